@@ -404,6 +404,7 @@ func natSingleDo(c *callCtx) []cont {
 		return ex.unknownCall(c)
 	}
 	clo := fnv.Clo
+	ex.nativeAtCalls(c, "(*golang.org/x/sync/singleflight.Group).Do")
 	anyT := c.sig.Results().At(0).Type()
 	errT := c.sig.Results().At(1).Type()
 	boolT := c.sig.Results().At(2).Type()
